@@ -29,6 +29,7 @@ type c12Item struct {
 	Id    []byte            `json:"id"`
 	Value []uint32          `json:"value"`
 	Meta  map[string]string `json:"meta,omitempty"`
+	Level int32             `json:"level,omitempty"` // a level the client puts into a batch item (the server draws its own)
 }
 type c12Req struct {
 	Kind  string            `json:"kind"`
@@ -105,7 +106,7 @@ func (c *c12Client) partId(ds, ref string) []byte {
 func items(in []c12Item) []*pb.BatchItem {
 	var out []*pb.BatchItem
 	for _, it := range in {
-		out = append(out, &pb.BatchItem{Id: it.Id, Value: f32s(it.Value), Metadata: it.Meta})
+		out = append(out, &pb.BatchItem{Id: it.Id, Value: f32s(it.Value), Metadata: it.Meta, Level: it.Level})
 	}
 	return out
 }
@@ -405,6 +406,10 @@ func genC12Reqs(r *rng, n int) []c12Req {
 		{Kind: "PartitionBatchInsert", Tag: "unknown-partition", Ds: "d0", Part: "unknown", Items: []c12Item{{Id: id(), Value: vec(3)}}},
 		{Kind: "PartitionBatchInsert", Tag: "malformed-partition-id", Ds: "d0", Part: "malformed", Items: []c12Item{{Id: id(), Value: vec(3)}}},
 		{Kind: "PartitionBatchInsert", Tag: "oversized-batch", Ds: "d0", Part: "p0", Items: manyItems(r, 101, 3)},
+		// the level of a vertex is the server's business: whatever a client writes into the field must not reach the log
+		{Kind: "PartitionBatchInsert", Tag: "negative-level-item", Ds: "d0", Part: "p0", Items: []c12Item{{Id: id(), Value: vec(3)}, {Id: id(), Value: vec(3), Level: -2}}},
+		{Kind: "PartitionBatchInsert", Tag: "huge-level-item", Ds: "d0", Part: "p1", Items: []c12Item{{Id: id(), Value: vec(3)}, {Id: id(), Value: vec(3), Level: 1 << 30}}},
+		{Kind: "BatchInsert", Tag: "negative-level-item", Ds: "d0", Items: []c12Item{{Id: id(), Value: vec(3)}, {Id: id(), Value: vec(3), Level: -3}}},
 		{Kind: "PartitionBatchUpdate", Tag: "malformed-item-id", Ds: "d0", Part: "p0", Items: []c12Item{{Id: []byte{5}, Value: vec(3)}}},
 		{Kind: "PartitionBatchUpdate", Tag: "wrong-dimension-item", Ds: "d0", Part: "p0", Items: []c12Item{{Id: known[0], Value: vec(9)}, {Id: known[1], Value: vec(9)}, {Id: known[2], Value: vec(9)}, {Id: known[3], Value: vec(9)}}},
 		{Kind: "PartitionBatchRemove", Tag: "malformed-item-id", Ds: "d0", Part: "p1", Items: []c12Item{{Id: []byte{6, 6, 6}}}},
